@@ -17,14 +17,49 @@
 (*     density |Sigma|^(eta-1) is a function of the determinant alone).    *)
 (* The transcendental part of each density is evaluated by the replay in   *)
 (* mpmath from the rationals emitted here.                                 *)
+(*                                                                         *)
+(* HISTORY OF THE PRIOR OBJECT (second machine, HSpec).  The density        *)
+(* lattice above evaluates freshly constructed priors only.  A prior is a   *)
+(* torch Module whose hyper-parameters are state: they are reported by its  *)
+(* attributes and by state_dict(), and they change under                    *)
+(*   Assign   prior.<attr> = t  for the public attributes of the class      *)
+(*   Load     prior.load_state_dict(state of a prior with other values)     *)
+(*   ModLoad  owner.load_state_dict(state of an owner whose prior has other *)
+(*            values): the prior is a CHILD of the module it is registered  *)
+(*            on and is restored by torch's in-place _load_from_state_dict  *)
+(*   Copy     copy.deepcopy (0) / pickle round trip (1) of the owner        *)
+(*   Conv     .double() (0: identity on float64 state) / .float().double()  *)
+(*            (1: the buffers are re-created; all lattice values are dyadic *)
+(*            so the values survive float32)                                *)
+(* Two machines side by side, as in Constraint.tla:                         *)
+(*  - SEMANTIC: hp = <<m, x>>, the hyper-parameters the object HAS (indices *)
+(*    into HPar(fam); x is the part no public attribute can assign: sigma   *)
+(*    of SmoothedBoxPrior, the covariance of MultivariateNormalPrior).      *)
+(*    Classes that keep their hyper-parameters outside the state dict       *)
+(*    (UniformPrior, LKJ*: "plain") are not changed by Load / ModLoad.      *)
+(*  - CODE-SHAPED: buf (what state_dict reports), base (what log_prob       *)
+(*    reads), alias (buf and base share storage).  For the priors that are  *)
+(*    torch TransformedDistributions (LogNormal, HalfNormal, HalfCauchy)    *)
+(*    the buffers _transformed_<attr> are the tensors of base_dist, so the  *)
+(*    in-place ModLoad reaches base_dist only while alias holds.            *)
+(*    AliasSurvivesConv = FALSE is the code as it is (Module._apply         *)
+(*    replaces the buffers), TRUE the repaired design.                      *)
+(* Property HAgree: log_prob is the documented density at hp, and the       *)
+(* attributes and state_dict report hp, after every history.  Every step of *)
+(* hist carries hp (the replay's oracle: mpmath at HParOf(fam, hp)) and the *)
+(* code-shaped prediction `stale`.                                          *)
 (***************************************************************************)
 EXTENDS Integers, Sequences, FiniteSets, TLC
 
 CONSTANTS Pts,      \* numerators of the evaluation points over denominator 4
-          Thorough  \* BOOLEAN: larger parameter sets
+          Thorough, \* BOOLEAN: larger parameter sets
+          HMaxLen,  \* history machine: number of operations after the construction
+          HIdx,     \* history machine: indices of HPar(fam) offered to Assign / Load / ModLoad
+          AliasSurvivesConv   \* code-shaped: a dtype conversion keeps _transformed_<attr> and base_dist.<attr> one tensor
 
-VARIABLE case
-vars == <<case>>
+VARIABLES case,                          \* density lattice
+          hfam, hp, buf, base, alias, hist   \* history machine
+vars == <<case, hfam, hp, buf, base, alias, hist>>
 
 \* ---- rationals with positive denominators ---------------------------------------------------
 Q(n, d)   == <<n, d>>
@@ -88,9 +123,91 @@ Vector ==
 
 Cases == Scalar \cup Matrix \cup Vector
 
-Init == case \in Cases
-Next == UNCHANGED case
+NoCase == Rec("none", <<>>, Zero, FALSE, <<>>)
+Init == case \in Cases /\ hfam = "none" /\ hp = <<0, 0>> /\ buf = <<0, 0>> /\ base = <<0, 0>> /\ alias = TRUE /\ hist = <<>>
+Next == UNCHANGED vars
 Spec == Init /\ [][Next]_vars
+
+\* ---- history of the prior object ---------------------------------------------------------------
+\* three hyper-parameter tuples per class, all dyadic (exact in float32; the covariances <<v11, v12, v22>> have dyadic Cholesky
+\* factors), pairwise different in every component
+HPar(fam) ==
+  CASE fam = "Normal"      -> <<<<Q(1, 2), Q(2, 1)>>, <<Q(-1, 1), Q(1, 2)>>, <<Q(0, 1), Q(1, 1)>>>>
+    [] fam = "LogNormal"   -> <<<<Q(1, 2), Q(2, 1)>>, <<Q(-1, 1), Q(1, 2)>>, <<Q(0, 1), Q(1, 1)>>>>
+    [] fam = "HalfNormal"  -> <<<<Q(1, 2)>>, <<Q(2, 1)>>, <<Q(1, 1)>>>>
+    [] fam = "HalfCauchy"  -> <<<<Q(1, 2)>>, <<Q(2, 1)>>, <<Q(1, 1)>>>>
+    [] fam = "Horseshoe"   -> <<<<Q(1, 2)>>, <<Q(2, 1)>>, <<Q(1, 1)>>>>
+    [] fam = "Gamma"       -> <<<<Q(1, 2), Q(2, 1)>>, <<Q(3, 1), Q(1, 2)>>, <<Q(1, 1), Q(1, 1)>>>>
+    [] fam = "Uniform"     -> <<<<Q(0, 1), Q(1, 1)>>, <<Q(1, 4), Q(3, 1)>>, <<Q(-1, 1), Q(4, 1)>>>>
+    [] fam = "SmoothedBox" -> <<<<Q(0, 1), Q(1, 1), Q(1, 2)>>, <<Q(1, 4), Q(3, 1), Q(1, 8)>>, <<Q(-1, 1), Q(1, 2), Q(1, 4)>>>>
+    [] fam = "MVN2"        -> <<<<Q(0, 1), Q(0, 1), <<1, 0, 1>>>>, <<Q(1, 2), Q(-1, 1), <<4, 2, 2>>>>, <<Q(-1, 1), Q(1, 4), <<4, -2, 5>>>>>>
+    [] fam = "LKJ2"        -> <<<<Q(1, 2)>>, <<Q(3, 1)>>, <<Q(3, 2)>>>>
+HFams == {"Normal", "LogNormal", "HalfNormal", "HalfCauchy", "Horseshoe", "Gamma", "Uniform", "SmoothedBox", "MVN2", "LKJ2"}
+
+\* where the class keeps its hyper-parameters
+HStore(fam) == IF fam \in {"LogNormal", "HalfNormal", "HalfCauchy"} THEN "transformed"
+               ELSE IF fam \in {"Uniform", "LKJ2"} THEN "plain" ELSE "buffer"
+\* the last component is not assignable through a public attribute
+HPartial(fam) == fam \in {"SmoothedBox", "MVN2"}
+\* the tuple <<m, x>> denotes: HPar[m] with its last component taken from HPar[x]
+HParOf(fam, h) == LET p == HPar(fam)[h[1]] IN IF HPartial(fam) THEN [p EXCEPT ![Len(p)] = HPar(fam)[h[2]][Len(p)]] ELSE p
+\* evaluation points (scalars: numerators over 4; MVN2: pairs of them; LKJ2: the correlation numerator over 4)
+HPts(fam) == CASE fam \in {"Normal", "SmoothedBox"} -> <<-5, 1, 3, 9>>
+               [] fam = "Uniform" -> <<2, 3, 5>>
+               [] fam = "MVN2" -> <<<<-4, 2>>, <<3, 1>>>>
+               [] fam = "LKJ2" -> <<-2, 1, 3>>
+               [] OTHER -> <<1, 3, 9>>
+
+\* one step of hist: operation, argument, hp after it, the code-shaped prediction, the hyper-parameter tuple hp denotes
+HStep(fam, op, a, h, stale) == <<op, a, h, stale, HParOf(fam, h)>>
+\* does the code-shaped machine disagree with the semantic one (prediction; never a verdict)
+Stale(fam, h, bf, bs) == bs # h \/ (HStore(fam) # "plain" /\ bf # h)
+
+\* hist[1] is the construction; it also carries the evaluation points and the table the arguments index
+HInit == /\ case = NoCase
+         /\ hfam \in HFams
+         /\ hp = <<1, 1>> /\ buf = <<1, 1>> /\ base = <<1, 1>> /\ alias = TRUE
+         /\ hist = <<HStep(hfam, "Construct", 1, <<1, 1>>, FALSE) \o <<HPts(hfam), HPar(hfam)>>>>
+
+HCommit(op, a, h, bf, bs, al) ==
+  /\ Len(hist) < HMaxLen + 1
+  /\ hp' = h /\ buf' = bf /\ base' = bs /\ alias' = al
+  /\ hist' = Append(hist, HStep(hfam, op, a, h, Stale(hfam, h, bf, bs)))
+  /\ UNCHANGED <<case, hfam>>
+
+\* prior.<attr> = t for every public attribute (Prior.__setattr__ gives base_dist and the buffer the same tensor)
+HAssign(j) == j \in HIdx /\
+              LET h == <<j, IF HPartial(hfam) THEN hp[2] ELSE j>>
+                  b == <<j, IF HPartial(hfam) THEN base[2] ELSE j>>
+                  f == <<j, IF HPartial(hfam) THEN buf[2] ELSE j>>
+              IN HCommit("Assign", j, h, f, b, IF HPartial(hfam) THEN alias ELSE TRUE)
+\* prior.load_state_dict: copies into the buffers, then re-points base_dist at them (Prior.load_state_dict)
+HLoad(j) == IF HStore(hfam) = "plain" THEN HCommit("Load", j, hp, buf, base, alias)
+            ELSE HCommit("Load", j, <<j, j>>, <<j, j>>, <<j, j>>, TRUE)
+\* owner.load_state_dict: in place into the buffers of the child; base_dist follows only through the shared storage
+HModLoad(j) == IF HStore(hfam) = "plain" THEN HCommit("ModLoad", j, hp, buf, base, alias)
+               ELSE HCommit("ModLoad", j, <<j, j>>, <<j, j>>, IF HStore(hfam) = "transformed" /\ ~alias THEN base ELSE <<j, j>>, alias)
+HCopy(k) == k \in {0, 1} /\ HCommit("Copy", k, hp, buf, base, alias)
+HConv(k) == k \in {0, 1} /\ HCommit("Conv", k, hp, buf, base, IF k = 1 /\ HStore(hfam) = "transformed" THEN alias /\ AliasSurvivesConv ELSE alias)
+
+HNext == \/ \E j \in HIdx : HAssign(j)
+         \/ \E j \in HIdx : HLoad(j)
+         \/ \E j \in HIdx : HModLoad(j)
+         \/ \E k \in (IF Thorough THEN {0, 1} ELSE {0}) : HCopy(k)
+         \/ \E k \in {0, 1} : HConv(k)
+HSpec == HInit /\ [][HNext]_vars
+
+\* the property: what log_prob reads and what the object reports are the hyper-parameters it has
+HAgree == hfam # "none" => ~Stale(hfam, hp, buf, base)
+\* the prediction recorded in hist is the one of the current state; hp is always a pair of lattice indices
+HWellFormed == hfam # "none" =>
+  /\ hp[1] \in (HIdx \cup {1}) /\ hp[2] \in (HIdx \cup {1})
+  /\ hist[Len(hist)][3] = hp /\ hist[Len(hist)][4] = Stale(hfam, hp, buf, base) /\ hist[Len(hist)][5] = HParOf(hfam, hp)
+  /\ (HStore(hfam) = "plain" => hp = <<1, 1>> \/ \E i \in 1..Len(hist) : hist[i][1] = "Assign")
+\* on the code as it is: every history without a buffer-replacing conversion (.float().double()) satisfies the property
+HAgreeUnlessConverted == hfam # "none" /\ Stale(hfam, hp, buf, base) => \E i \in 1..Len(hist) : hist[i][1] = "Conv" /\ hist[i][2] = 1
+\* a stale object needs a broken alias: only the TransformedDistribution priors, only after a buffer-replacing conversion
+HStaleOnlyByAlias == hfam # "none" /\ Stale(hfam, hp, buf, base) => HStore(hfam) = "transformed" /\ ~alias
 
 \* ---- exact parts of the documented densities --------------------------------------------------
 BoxDistanceIsDistance == case.fam = "SmoothedBox" => Eq(case.aux[1], case.aux[2]) /\ Le(Zero, case.aux[1])
